@@ -60,7 +60,10 @@ LoopNets == <<
   Build(<<1, 3, 5>>, <<C3(1, "relu"), T3x(1, "linear"), D(3, "linear", TRUE)>>),
   \* the loop STARTS with a max-pool layer and ends with the layer that is flattened for the dense head: in every iteration
   \* after the first the max-pool layer receives its input as a flat vector
-  Build(<<1, 4, 4>>, <<P2, T2(1), D(2, "linear", FALSE)>>)
+  Build(<<1, 4, 4>>, <<P2, T2(1), D(2, "linear", FALSE)>>),
+  \* TWO channels at the loop entry, the looped convolution flattened for the dense head: with input skips the flat output is
+  \* brought back to 2 x 3 x 3 before the stored input is added
+  Build(<<2, 3, 3>>, <<C3(2, "relu"), D(2, "linear", FALSE)>>)
 >>
 
 \* feedback block record from its inner items, placed after output shape P
@@ -144,7 +147,15 @@ Loopback(a, b, k, isk) ==
   /\ Mode = "loop" /\ phase = "build" /\ Len(hist) < MaxConnects
   /\ a <= b /\ net.layers[a].in = net.layers[b].out
   /\ \A lp \in net.loops : \/ b < lp.into \/ lp.outof < a
-                             \/ (lp.outof # b /\ ~isk /\ ~lp.inskips)
+                             \/ /\ lp.outof # b
+                                \* of two loops that share layers, the one run LATER (larger last layer) adds "the original
+                                \* input of its first layer" only if the earlier loop's accumulation has not rewritten
+                                \* that stored value (it rewrites the inputs of the layers after its first, up to the one
+                                \* after its last)
+                                /\ LET l1 == IF lp.outof < b THEN [into |-> lp.into, outof |-> lp.outof] ELSE [into |-> a, outof |-> b]
+                                       l2into == IF lp.outof < b THEN a ELSE lp.into
+                                       l2isk == IF lp.outof < b THEN isk ELSE lp.inskips
+                                   IN ~l2isk \/ ~(l1.into + 1 <= l2into /\ l2into <= l1.outof + 1)
   /\ hist' = Append(hist, [op |-> "loopback", outof |-> b, into |-> a, iterations |-> k, inskips |-> isk, outcome |-> "ok"])
   /\ net' = [net EXCEPT !.loops = @ \cup {[outof |-> b, into |-> a, iterations |-> k, inskips |-> isk]}]
   /\ UNCHANGED <<phase, cfgv>>
